@@ -1,9 +1,15 @@
 HOOK_COMMITS = []
 ENGINES = [
-    {"name": "kernel", "path": "mc/kernel.py", "serves_properties": ["C15"], "kind_free_text": "hand-written bounded exhaustive explorer: units enumerate a finite space (alphabet x bound), sharded over a fork pool; recorder counts evaluations/distinct cases/states/transitions/witnesses; replay files; known-findings triage"},
+    {"name": "kernel", "path": "mc/kernel.py", "serves_properties": ["C01", "C05", "C15"], "kind_free_text": "hand-written bounded exhaustive explorer: units enumerate a finite space (alphabet x bound), sharded over a fork pool; recorder counts evaluations/distinct cases/states/transitions/witnesses; replay files; known-findings triage"},
 ]
 NOT_YET = {}
 CHECKS = {
+    "C01": {
+        "level": "model_checking",
+        "technique": "explicit-state exploration of the TTFont load/touch/save state machine over a bounded loaded-set lattice, executed on the real implementation (stateless, every state replayed from the source font)",
+        "text": "States (font, lazy mode, set of decoded tables) are enumerated for every corpus font, container flavour and generated font: the full set, the empty set, every singleton (thorough: every pair and co-singleton, plus AOTS table transplants). In every state the font is saved and the oracle checks byte pass-through of tables never decoded (independent sfnt parser), content equality of decoded tables, and that save(load-all(.)) is a byte-exact fixed point at the next generation.",
+        "note": "Trusted: canonical TTX dump as the content-equality relation (head.checkSumAdjustment, OS/2 first/last char index and the post string-pool order are masked as container/derived/representation data); fontTools' own WOFF/WOFF2 unpacking for reading saved payloads (C04 checks containers independently).",
+    },
     "C05": {
         "level": "exploration",
         "technique": "exhaustive enumeration of (font, location-lattice point, glyph) with a differential oracle (HarfBuzz) - bounded model checking of the drawing path, no sampling",
